@@ -3,11 +3,13 @@
 pub mod alloc;
 pub mod childworker;
 pub mod client;
+pub mod dataset;
 pub mod driver;
 pub mod dump;
 pub mod findings;
 pub mod gen;
 pub mod model;
+pub mod out;
 pub mod props;
 pub mod resp;
 pub mod runner;
@@ -17,4 +19,10 @@ pub mod sut;
 /// Number of parallel workers (each owns one child server) for black-box checks.
 pub fn workers() -> usize {
     std::env::var("FVH_WORKERS").ok().and_then(|s| s.parse().ok()).unwrap_or(12)
+}
+
+/// println! onto the real stdout (see `out`).
+#[macro_export]
+macro_rules! outln {
+    ($($arg:tt)*) => { $crate::out::line(&format!($($arg)*)) };
 }
